@@ -27,6 +27,21 @@ func OrdMapKeysConcat(v reflect.Value) string {
 	return s
 }
 
+// OrdFirstWins keeps, for every value, the first key that maps to it — in map order — and sorts the
+// result: the SET of names returned depends on the iteration order although the list is sorted (violation).
+func OrdFirstWins(m map[string]*int) []string {
+	seen := map[*int]bool{}
+	var out []string
+	for k, v := range m {
+		if !seen[v] {
+			seen[v] = true
+			out = append(out, k)
+		}
+	}
+	sort.Strings(out)
+	return out
+}
+
 // OrdClean sorts before returning (clean twin).
 func OrdClean(m map[string]int) []string {
 	var out []string
